@@ -2,6 +2,7 @@
 from .base import Monitor
 from .. import codec as C
 from ..rules import maybe_forgotten
+from ..model import is_info
 
 MAXW = 2 ** 31 - 1
 
@@ -96,6 +97,7 @@ class C18(Monitor):
             if (f.type == C.HEADERS and pre is not None and pre.state == 'closed' and pre.closed_by == 'end'
                     and not f.hpack_error and f.headers is not None
                     and not (s.tainted and trk.table_size_changed)      # (the decoder may be owed a table-size update)
+                    and not (f.end_stream and is_info([(n, v_) for n, v_, _ in f.headers]))   # malformed whatever the state
                     and not (s.exc.get('where') or '').endswith('_decode_headers')
                     and not maybe_forgotten(trk, pre, self.knob)):
                 # RFC 7540 5.1: HEADERS on a stream both sides have finished is a connection error STREAM_CLOSED
